@@ -177,6 +177,31 @@ def run(ctx):
     pieces = [n for n in walk_local(bt.node) if (isinstance(n, ast.Assign) and u(n.targets[0]) == src) or
               (isinstance(n, ast.AugAssign) and u(n.target) == src)]
     okp = bool(pieces)
+    # the text may also be assembled as ''.join(<list of token strings>)
+    joined_lists = set()
+    for pc in list(pieces):
+      if isinstance(pc, ast.Assign) and isinstance(pc.value, ast.Call) and u(pc.value.func) == "''.join" and len(pc.value.args) == 1 \
+          and isinstance(pc.value.args[0], ast.Name):
+        joined_lists.add(pc.value.args[0].id)
+        pieces.remove(pc)
+    for L in joined_lists:
+      tok = 'self._current_token.string'
+      for n_ in walk_local(bt.node):
+        if isinstance(n_, ast.Assign) and len(n_.targets) == 1 and u(n_.targets[0]) == L:
+          fs = facts_at(g, facts, n_) or frozenset()
+          okl = isinstance(n_.value, ast.List) and all(
+              isinstance(e_, ast.Constant) and isinstance(e_.value, str) and ('c', '%s == %r' % (tok, e_.value), True) in fs for e_ in n_.value.elts)
+          okp = okp and okl
+        elif isinstance(n_, ast.Call) and isinstance(n_.func, ast.Attribute) and u(n_.func.value) == L:
+          a0 = n_.args[0] if n_.args else None
+          st_ = enclosing_stmt(n_)
+          fs = facts_at(g, facts, st_) or frozenset()
+          tok_now = a0 is not None and (u(a0) == tok or (isinstance(a0, ast.Attribute) and a0.attr == 'string' and isinstance(a0.value, ast.Name)
+                                                        and def_of(fs, a0.value.id) == 'self._current_token'))
+          const_tok = isinstance(a0, ast.Constant) and isinstance(a0.value, str) and ('c', '%s == %r' % (tok, a0.value), True) in fs
+          okp = okp and n_.func.attr == 'append' and (tok_now or const_tok)
+      pieces = pieces or [None]
+    pieces = [p_ for p_ in pieces if p_ is not None]
     for pc in pieces:
       val = pc.value
       if isinstance(pc, ast.Assign):
@@ -233,6 +258,16 @@ def run(ctx):
   if one:
     t = u(one[0].test).replace(' ', '')
     ok = 'type_fnistuple' in t and 'len(values)==1' in t and 'notsaw_comma' in t and isinstance(one[0].test, ast.BoolOp) and isinstance(one[0].test.op, ast.And)
+  if not ok:
+    # expression form: return True, values[0] if <tuple and one item and no comma> else type_fn(values)
+    from ..lib import expand_expr
+    for r_ in [n for n in g.live_nodes() if n.kind == 'return' and isinstance(n.ast.value, ast.Tuple) and len(n.ast.value.elts) == 2]:
+      v_ = expand_expr(facts[r_.id], r_.ast.value.elts[1])
+      for ie in [x for x in ast.walk(v_) if isinstance(x, ast.IfExp)]:
+        t_ = u(ie.test).replace(' ', '')
+        if isinstance(ie.test, ast.BoolOp) and isinstance(ie.test.op, ast.And) and 'type_fnistuple' in t_ and 'len(values)==1' in t_ and 'notsaw_comma' in t_ \
+            and u(ie.body).replace(' ', '') == 'values[0]' and u(ie.orelse).replace(' ', '') == 'type_fn(values)':
+          ok = True
   ctx.check(ok, 'C02.containers', construct(mc), 'a parenthesised single value without a comma is the value itself, anything else in () is a tuple',
             'the one-tuple rule is no longer `tuple and one item and no comma seen`', mc.loc(), instance='one-tuple')
   sets = [n for n in g.live_nodes() if n.kind == 'stmt' and isinstance(n.ast, ast.Assign) and u(n.ast.targets[0]) == 'saw_comma'
@@ -243,6 +278,17 @@ def run(ctx):
   sep = [n for n in g.live_nodes() if n.kind == 'test' and u(n.ast).replace(' ', '') == 'self._current_token.string!=close_bracket' and n.loops]
   okr = any(any(g.nodes[b].kind != 'stmt' or True for b, k in g.succ[n.id] if k == 'T') and
             not witness(g, [b for b, k in g.succ[n.id] if k == 'T'][0], [g.exit.id]) for n in sep if any(k == 'T' for _, k in g.succ[n.id]) and n.ast.parent is not None and isinstance(n.ast.parent, ast.If))
+  if not okr:
+    # by the facts at the rejection: the token is neither ',' nor the closer (whatever the spelling of the test)
+    tok = 'self._current_token.string'
+    for n in g.live_nodes():
+      if n.loops and (n.kind == 'raise_stmt' or any(prog.resolve_call(mc, c) in prog.noreturn for c in calls_of_node(n))):
+        fsn = facts[n.id]
+        not_comma = ('c', "%s == ','" % tok, False) in fsn
+        not_close = ('c', '%s == close_bracket' % tok, False) in fsn
+        both = any(f_[0] == 'c' and f_[2] is False and f_[1].replace(' ', '') in ("%sin(',',close_bracket)" % tok, "%sin(close_bracket,',')" % tok) for f_ in fsn)
+        if (not_comma and not_close) or both:
+          okr = True
   ctx.check(okr, 'C02.containers', construct(mc), 'after an item only a comma or the matching closer is accepted',
             'a token other than `,` or the closer after an item is no longer rejected', mc.loc(), instance='separator')
   di = ctx.func(CP + '._parse_dict_item')
